@@ -107,6 +107,8 @@ class World:
         n = int(m.group(1))
         self.events[n] = {"kind": kind, "sender": sender, "ts": int(m.group(3)), "idnum": int(m.group(2)), "mid": m.group(4),
                           "parent_token": before["token"] if before else None, "parent_epoch": before["epoch"] if before else None,
+                          "parent_nid": before["nid"] if before else None,
+                          "sender_admin": (str(sender) in before["admins"].split(",")) if before else None,
                           "line": line}
         return n
     def deliver(self, c, n):
@@ -117,6 +119,8 @@ class World:
             k = int(m.group(1))
             self.events[k] = {"kind": "commit", "sender": c, "ts": int(m.group(3)), "idnum": int(m.group(2)), "mid": None,
                               "parent_token": before["token"] if before else None, "parent_epoch": before["epoch"] if before else None,
+                              "parent_nid": before["nid"] if before else None,
+                              "sender_admin": (str(c) in before["admins"].split(",")) if before else None,
                               "line": "auto-commit", "sub": "auto"}
         return r.split()[0], before, self.fps.get(c)
 
@@ -127,7 +131,44 @@ def is_refusal(res):
 
 # ---- generators ------------------------------------------------------------------------------
 
-def gen_race_history(w, rng, tier, regime=None, restarts=True, ties=True, p_rewrap=0.25, p_leave=0.0, p_adv=0.25, p_hole=0.3, p_upd=0.2):
+def view_admins(w, c):
+    """the admin set client c currently holds (from its last fingerprint)"""
+    f = w.fps.get(c)
+    return {int(x) for x in f["admins"].split(",") if x} if f else set()
+
+def gen_data_update(w, rng, c, alive, others, tok, gone=(), p_nid=0.0):
+    """one `update_group_data` call by client c: one or two fields; admin-set changes include demoting a
+    concurrent committer, demoting oneself, promoting a member, and (rarely) lists the library must refuse"""
+    fields = {}
+    kinds = ["name", "desc", "relays", "admins", "admins"] + (["nid"] if rng.random() < p_nid else [])
+    for k in rng.sample(kinds, rng.choice([1, 1, 1, 2])):
+        if k == "name":
+            fields["name"] = tok
+        elif k == "desc":
+            fields["desc"] = tok
+        elif k == "relays":
+            fields["relays"] = rng.choice([0, 1, 2, 3])
+        elif k == "nid":
+            fields["nid"] = tok
+        else:
+            cur = view_admins(w, c) & set(alive)
+            r = rng.random()
+            if r < 0.35 and [o for o in others if o in cur]:
+                new = cur - {rng.choice([o for o in others if o in cur])}          # demote a concurrent committer
+            elif r < 0.6:
+                new = cur | {rng.choice(alive)}                                     # promote somebody
+            elif r < 0.75 and len(cur) > 1:
+                new = cur - {c}                                                     # demote oneself
+            elif r < 0.85:
+                new = set(rng.sample(alive, rng.randint(1, len(alive))))            # an unrelated set
+            elif r < 0.93 and gone:
+                new = cur | {rng.choice(list(gone))}                                # a removed member: must be refused
+            else:
+                new = set()                                                         # empty: must be refused
+            fields["admins"] = ",".join(map(str, sorted(new))) or "-"
+    return " ".join(f"{k} {v}" for k, v in fields.items())
+
+def gen_race_history(w, rng, tier, regime=None, restarts=True, ties=True, p_rewrap=0.25, p_leave=0.0, p_adv=0.25, p_hole=0.3, p_upd=0.2, p_data=0.5, p_nid=0.0):
     """setup, then rounds of concurrent actions on one epoch, per-client shuffled delivery with
     duplication, then quiescence rounds"""
     n = rng.choice([2, 3, 3, 4, 5] if tier == "quick" else [2, 3, 4, 5, 6])
@@ -176,9 +217,14 @@ def gen_race_history(w, rng, tier, regime=None, restarts=True, ties=True, p_rewr
         base = ts + 10
         stamps = [base + rng.choice([0, 0, 1, 2, -1]) for _ in committers] if ties else rng.sample(range(base - 2, base + 4), len(committers))
         for c, st in zip(committers, stamps):
-            if c in admins and rng.random() < 0.4:
+            # the admin set changes during the history: who may update the group data is read from the client's own view;
+            # now and then a non-admin tries as well (refused by the library)
+            if (c in view_admins(w, c) and rng.random() < p_data) or rng.random() < 0.05:
                 tok += 1
-                e = w.publish(f"data {c} name {tok} {st}", "commit", c)
+                upd = gen_data_update(w, rng, c, alive, [o for o in committers if o != c], tok, w.meta.get("gone", ()), p_nid)
+                e = w.publish(f"data {c} {upd} {st}", "commit", c)
+                if e is None and rng.random() < 0.5:
+                    e = w.publish(f"selfupdate {c} {st}", "commit", c)
             else:
                 e = w.publish(f"selfupdate {c} {st}", "commit", c)
             if e is not None:
@@ -201,7 +247,7 @@ def gen_race_history(w, rng, tier, regime=None, restarts=True, ties=True, p_rewr
             e = w.publish(f"leave {s} {ts}", "proposal", s)
             if e is not None: new.append(e)
         # a NON-admin member builds a Remove commit with the MLS library directly, with a chosen timestamp
-        nonadmins = [c for c in alive if c not in admins]
+        nonadmins = [c for c in alive if c not in view_admins(w, c)]
         if nonadmins and rng.random() < p_adv:
             a = rng.choice(nonadmins); victim = rng.choice([c for c in alive if c != a])
             e = w.publish(f"advremove {a} {victim} {base + rng.choice([-9, -4, 0, 3, 8] if ties else [-9, -4, 5, 8])}", "commit", a)
@@ -311,6 +357,32 @@ def oracle_world(w):
         fails.append({"kind": "oracle", "prop": prop, "props": sorted(set([prop] + SHARED.get(sig, []))), "signature": sig,
                       "what": f"world {w.id} step {step}: {what}", "replay_body": w.text(step, what)})
     commits = {n: e for n, e in w.events.items() if e["kind"] == "commit"}
+    # ---- what each MLS state (token) says about roster and group data, as first observed (C05 / C08) ----
+    def gdata(f):
+        return (f["members"], f["admins"], f["name"], f["desc"], f["nid"], f["relays"])
+    GD = ("members", "admins", "name", "description", "nostr_group_id", "relays")
+    token_data = {}
+    for i, (cmd, res, fp) in enumerate(w.trace):
+        f = parse_fp(fp)
+        if f is not None and f["token"] >= 0 and f["state"] == "a":
+            if f["token"] not in token_data:
+                token_data[f["token"]] = (gdata(f), i)
+            elif token_data[f["token"]][0] != gdata(f) and f["sync"]:
+                # C08: the stored record is a function of the MLS state — two observations of the SAME MLS state
+                # (same epoch authenticator; any client, any time, incl. after a rollback) show the same record
+                d0, i0 = token_data[f["token"]]
+                diff = [n for n, x, y in zip(GD, d0, gdata(f)) if x != y]
+                fail("C08", "record-differs-for-same-mls-state", i, f"after `{cmd}` the record fields {diff} differ from those seen at step {i0} for the same MLS state T{f['token']}: {d0} vs {gdata(f)}")
+    def check_applied(i, cmd, c, n_ev, before, f):
+        """C05: client c applied commit n_ev (token changed): whatever changed of roster / admins / data was changed by an
+        author who is an admin in the state the commit was applied on (= the state it was created in)"""
+        ev = w.events.get(n_ev)
+        if ev is None or ev.get("parent_token") is None or ev["parent_token"] not in token_data:
+            return
+        parent = token_data[ev["parent_token"]][0]
+        changed = [n for n, x, y in zip(GD, parent, gdata(f)) if x != y]
+        if changed and str(ev["sender"]) not in parent[1].split(","):
+            fail("C05", "nonadmin-commit-accepted", i, f"`{cmd}`: c{c} applied commit {n_ev} by c{ev['sender']}, who is not an admin in the state it applies to (admins [{parent[1]}]), and {changed} changed: {parent} -> {gdata(f)}")
     # ---- per-step predicates (C06 refuse-frame, C07 redelivery, C08 sync) ----
     seen_effect = {}     # (client, event) -> True once a delivery of it was handled with effect
     prev_fp = {}
@@ -321,7 +393,16 @@ def oracle_world(w):
         f = parse_fp(fp)
         c = int(t[1]) if len(t) > 1 and t[1].isdigit() and t[0] not in ("rewrap", "retag") else None
         if f is not None and not f["sync"] and f["state"] == "a":
-            fail("C08", "record-not-synced", i, f"stored record (epoch/name) differs from the MLS state after `{cmd}`")
+            fail("C08", "record-not-synced", i, f"stored record (epoch / name / description / admins / relays / nostr group id) differs from the MLS state after `{cmd}`")
+        if c is not None and f is not None and prev_fp.get(c) is not None:
+            b4 = prev_fp[c]
+            if b4["token"] == f["token"] and b4["token"] >= 0 and gdata(b4) != gdata(f) and b4["state"] == "a" and f["state"] == "a":
+                # C05: roster / admins / data change only by applying a commit (the MLS state did not move here)
+                fail("C05", "data-changed-without-commit", i, f"`{cmd}` changed {[n for n, x, y in zip(GD, gdata(b4), gdata(f)) if x != y]} while the MLS state stayed T{f['token']}")
+            if t[0] == "merge" and res == "ok" and b4["token"] != f["token"]:
+                mine = [n for n, e in w.events.items() if e["sender"] == c and e["kind"] == "commit" and e["parent_token"] == b4["token"]]
+                if mine:
+                    check_applied(i, cmd, c, max(mine), b4, f)
         if t[0] == "deliver" and c is not None:
             before = prev_fp.get(c)
             r0 = res.split()[0]
@@ -337,6 +418,13 @@ def oracle_world(w):
                             # timestamp, the rollback happens, and the ciphertext cannot be decrypted a second time
                             sig = "rewrapped-commit-rollback"
                     fail("C06", sig, i, f"`{cmd}` returned {r0} but the projection changed: {proj(before)} -> {proj(f)}")
+                if r0 == "commit" and before["token"] != f["token"]:
+                    n_app = int(t[2])
+                    if w.events.get(n_app, {}).get("sender") == c:
+                        # the echo of an own commit merges whatever commit is pending now (the latest staged one)
+                        mine = [n for n, e in w.events.items() if e["sender"] == c and e["kind"] == "commit" and e["parent_token"] == w.events[n_app].get("parent_token")]
+                        n_app = max(mine) if mine else n_app
+                    check_applied(i, cmd, c, n_app, before, f)
                 evd = w.events.get(int(t[2]), {})
                 if r0 == "commit" and evd.get("adv") and before["token"] != f["token"] and c != evd.get("sender") and f["epoch"] > before["epoch"]:
                     # (the crafter's own client is the adversary's business; a receiver that only ROLLED BACK for the
@@ -493,8 +581,7 @@ def run_histories(seed, n, tier, gen=gen_race_history):
 
 # ---- correspondence with Model.Client ----------------------------------------------------------
 
-ERR_KINDS = {"GroupNotFound": "1", "Message": "2", "CommitFromNonAdmin": "3", "Group": "4"}
-MODEL_FIELDS = ("epoch", "token", "members", "admins", "name", "state", "pr", "last", "msgs_m", "recs_m", "snaps")
+ERR_KINDS = {"GroupNotFound": "1", "Message": "2", "CommitFromNonAdmin": "3", "Group": "4", "UpdateGroupContextExts": "5", "SelfUpdate": "6"}
 
 def model_input(w):
     """translate the harness trace into the model driver's input lines; returns [(trace_index, line)]"""
@@ -515,8 +602,9 @@ def model_input(w):
             else: out.append((i, f"send {t[1]} 9999 0 0 9999 {100 + int(t[2])} {t[2]}"))
         elif t[0] == "selfupdate":
             out.append((i, f"selfupdate {t[1]} {ev.group(1)} {ev.group(3)} {ev.group(2)}" if ev else f"selfupdate {t[1]} 9999 0 0"))
-        elif t[0] == "data" and t[2] == "name":
-            out.append((i, f"name {t[1]} {t[3]} {ev.group(1)} {ev.group(3)} {ev.group(2)}" if ev else f"name {t[1]} {t[3]} 9999 0 0"))
+        elif t[0] == "data" and all(f in ("name", "desc", "relays", "admins", "nid") for f in t[2:-1:2]):
+            fields = " ".join(t[2:-1])
+            out.append((i, f"data {t[1]} {ev.group(1)} {ev.group(3)} {ev.group(2)} {fields}" if ev else f"data {t[1]} 9999 0 0 {fields}"))
         elif t[0] == "leave":
             out.append((i, f"leave {t[1]} {ev.group(1)} {ev.group(3)} {ev.group(2)}" if ev else f"leave {t[1]} 9999 0 0"))
         elif t[0] == "remove":
@@ -547,18 +635,20 @@ def norm_res(res, impl):
         return "err:" + (ERR_KINDS.get(k, "9") if impl else k)
     return r
 
-def fp_view(fp, skip_recs=()):
-    f = parse_fp(fp) if "D" in fp and " I" in fp else None
+def fp_view(fp, skip_recs=(), nids=None):
+    """the compared fields of a fingerprint (implementation's or model's); `nids` renumbers the nostr group ids by
+    first occurrence within one side of one world (the harness numbers the ids it sees, the model has its own)"""
+    f = parse_fp(fp)
     if f is None:
-        m = re.match(r"E(\d+) T(-?\d+) M\[([^\]]*)\] A\[([^\]]*)\] N(\S*) S(\w) PR\[([^\]]*)\] L(\S+) X\[([^\]]*)\] K\[([^\]]*)\] Z(\d+)", fp)
-        if not m:
-            return fp
-        return (m.group(1), m.group(2), m.group(3), m.group(4), m.group(5), m.group(6), m.group(7), m.group(8), m.group(9), m.group(10), m.group(11))
+        return fp
     msgs = ",".join(f"{m['id']}:{m['author']}:{m['state']}:{m['epoch']}:{m['wrapper']}:{m['tok']}" for m in f["msgs"])
     recs = ",".join(f"{n}:{s}:{e}" for n, (s, e) in sorted(f["recs"].items()) if n not in skip_recs)
-    return (str(f["epoch"]), str(f["token"]), f["members"], f["admins"], f["name"], f["state"], f["pr"], f["last"], msgs, recs, str(f["snaps"]))
+    nid = f["nid"] if nids is None else str(nids.setdefault(f["nid"], len(nids)))
+    return (str(f["epoch"]), str(f["token"]), f["members"], f["admins"], f["name"], f["desc"], nid, f["relays"], f["state"], f["pa"], f["pr"],
+            f["last"], msgs, recs, str(f["snaps"]))
 
-FIELD_NAMES = ("epoch", "token", "members", "admins", "name", "state", "pending_removes", "last_message", "messages", "records", "snapshots")
+FIELD_NAMES = ("epoch", "token", "members", "admins", "name", "description", "nostr_group_id", "relays", "state", "pending_adds", "pending_removes",
+               "last_message", "messages", "records", "snapshots")
 
 def correspondence(worlds):
     """replays every trace on the Lean model and diffs result kind + fingerprint fields"""
@@ -575,6 +665,7 @@ def correspondence(worlds):
     k = 0
     for w, mi in inputs:
         failed = False
+        nid_i, nid_m = {}, {}
         for idx, line in mi:
             mo = out[k] if k < len(out) else "<missing>"; k += 1
             cmd, res, fp = w.trace[idx]
@@ -587,7 +678,7 @@ def correspondence(worlds):
             if a != b and not (a.startswith("err:9") and b.startswith("err:")):
                 diff = f"result impl={res.split()[0]} model={mres}"
             else:
-                va, vb = fp_view(fp, {k for k, e in w.events.items() if e.get("unmodelled")}), fp_view(mfp)
+                va, vb = fp_view(fp, {k for k, e in w.events.items() if e.get("unmodelled")}, nid_i), fp_view(mfp, (), nid_m)
                 if isinstance(va, tuple) and isinstance(vb, tuple):
                     for name, x, y in zip(FIELD_NAMES, va, vb):
                         if x != y:
@@ -702,7 +793,8 @@ def replay_world(path, wid=None):
                 if e is not None and t[0] == "advupdate":
                     w.events[e]["unmodelled"] = True
                 if e is not None and t[0] == "advremove":
-                    w.events[e]["adv"] = True
+                    # unauthorised iff the crafter is not an admin in the state it crafts the commit in
+                    w.events[e]["adv"] = not w.events[e].get("sender_admin")
             elif t[0] == "rewrap":
                 r, _ = w.do(c)
                 m = re.match(r"ev=(\d+) idnum=(\d+) ts=(-?\d+)", r)
